@@ -81,6 +81,9 @@ class ActionContext(abc.ABC):
         try:
             result = self.trigger_context.evaluate_expression(watch)
             variable_id, log_str = var_processor.process_variable(watch, result)
+            if variable_id.vid is None:
+                # the variable budget ran out before the value was recorded: say so, rather than refer to nothing
+                return WatchResult(source, watch, None, "variable limit reached"), {}, log_str
 
             return WatchResult(source, watch, variable_id), var_processor.var_lookup, log_str
         except BaseException as e:
@@ -97,6 +100,8 @@ class ActionContext(abc.ABC):
         """
         var_processor = VariableSetProcessor({}, self.var_cache)
         variable_id, log_str = var_processor.process_variable(name, variable)
+        if variable_id.vid is None:
+            return WatchResult(WATCH_SOURCE_CAPTURE, name, None, "variable limit reached"), {}, log_str
 
         return WatchResult(WATCH_SOURCE_CAPTURE, name, variable_id), var_processor.var_lookup, log_str
 
